@@ -62,11 +62,52 @@ def Frag.Stmt.first : Stmt → TokenKind
   | .defm _ _ => .Defm
   | .multiclass _ _ _ => .MultiClass
 
+/-- the node kind of a statement -/
+def Frag.Stmt.nk : Stmt → SyntaxKind
+  | .include => .Include
+  | .cls _ _ _ => .Class
+  | .def_ _ _ _ => .Def
+  | .defvar _ => .Defvar
+  | .dump _ => .Dump
+  | .assert_ _ _ => .Assert
+  | .defset _ _ => .Defset
+  | .ifThen _ _ => .If
+  | .ifElse _ _ _ => .If
+  | .let_ _ _ => .Let
+  | .foreach _ _ => .Foreach
+  | .defm _ _ => .Defm
+  | .multiclass _ _ _ => .MultiClass
+
+def Frag.Stmts.kinds : Stmts → List SyntaxKind
+  | .nil => []
+  | .cons s ss => s.nk :: ss.kinds
+
+def Frag.ForeachInit.nk : ForeachInit → SyntaxKind
+  | .braces _ => .RangeList
+  | .piece _ => .RangePiece
+  | .value _ => .Value
+
+/-- a statement list node hands every statement to its accessor -/
+theorem good_stmts (ss : Stmts) :
+    goodNode .StatementList (pushAll ss.kinds []).reverse = true := by
+  refine good_all_push .StatementList _ rfl rfl _ ?_
+  have key : ∀ (ss : Stmts), ∀ x ∈ ss.kinds, (AstTable.Field.casts ⟨"statements", .all, [SyntaxKind.Include, SyntaxKind.Assert, SyntaxKind.Class, SyntaxKind.Def, SyntaxKind.Defm, SyntaxKind.Defset, SyntaxKind.Defvar, SyntaxKind.Dump, SyntaxKind.Foreach, SyntaxKind.If, SyntaxKind.Let, SyntaxKind.MultiClass]⟩).contains x = true := by
+    intro ss
+    induction ss using Stmts.rec (motive_1 := fun _ => True) (motive_2 := fun _ => True) with
+    | nil => intro x hx; simp [Stmts.kinds] at hx
+    | cons s ss _ ih =>
+      intro x hx
+      rcases List.mem_cons.mp hx with rfl | hx
+      · cases s <;> rfl
+      · exact ih x hx
+    | _ => trivial
+  exact key ss
+
 theorem stmt_render_cons (s : Stmt) (Z : List TokenKind) : ∃ tl, s.render ++ Z = s.first :: tl := by
   cases s <;> exact ⟨_, rfl⟩
 
 section
-variable (fl : Bool) (d : Nat) (loc : List Bool) (cps : List Nat)
+variable (fl : Bool) (d : Nat) (loc : List Bool) (cps : CpStack) (cur : List SyntaxKind) (ps : List (SyntaxKind × List SyntaxKind))
 
 /-! ### dispatch -/
 
@@ -81,8 +122,8 @@ def mcTable : List (TokenKind × Fn) := [
 
 /-- `statement` calls the function its first token selects -/
 theorem dispatch_stmt {k : TokenKind} {f : Fn} (hkf : (k, f) ∈ stmtTable) (ks : List TokenKind) (a' : AState)
-    (m : Nat) (h : ax m (call f) ⟨k :: ks, fl, d, loc, cps, true⟩ = some a') :
-    ax (m + 16) (call .statement) ⟨k :: ks, fl, d, loc, cps, true⟩ = some a' := by
+    (m : Nat) (h : ax m (call f) ⟨k :: ks, fl, d, loc, cps, true, cur, ps⟩ = some a') :
+    ax (m + 16) (call .statement) ⟨k :: ks, fl, d, loc, cps, true, cur, ps⟩ = some a' := by
   simp only [stmtTable, List.mem_cons, Prod.mk.injEq, List.not_mem_nil, or_false] at hkf
   rcases hkf with ⟨rfl, rfl⟩ | ⟨rfl, rfl⟩ | ⟨rfl, rfl⟩ | ⟨rfl, rfl⟩ | ⟨rfl, rfl⟩ | ⟨rfl, rfl⟩ | ⟨rfl, rfl⟩ |
     ⟨rfl, rfl⟩ | ⟨rfl, rfl⟩ | ⟨rfl, rfl⟩ | ⟨rfl, rfl⟩ | ⟨rfl, rfl⟩ <;>
@@ -91,8 +132,8 @@ theorem dispatch_stmt {k : TokenKind} {f : Fn} (hkf : (k, f) ∈ stmtTable) (ks 
     exact aexec_mono _ _ _ _ _ h _ (by omega)
 
 theorem dispatch_mcstmt {k : TokenKind} {f : Fn} (hkf : (k, f) ∈ mcTable) (ks : List TokenKind) (a' : AState)
-    (m : Nat) (h : ax m (call f) ⟨k :: ks, fl, d, loc, cps, true⟩ = some a') :
-    ax (m + 16) (call .multi_class_statement) ⟨k :: ks, fl, d, loc, cps, true⟩ = some a' := by
+    (m : Nat) (h : ax m (call f) ⟨k :: ks, fl, d, loc, cps, true, cur, ps⟩ = some a') :
+    ax (m + 16) (call .multi_class_statement) ⟨k :: ks, fl, d, loc, cps, true, cur, ps⟩ = some a' := by
   simp only [mcTable, List.mem_cons, Prod.mk.injEq, List.not_mem_nil, or_false] at hkf
   rcases hkf with ⟨rfl, rfl⟩ | ⟨rfl, rfl⟩ | ⟨rfl, rfl⟩ | ⟨rfl, rfl⟩ | ⟨rfl, rfl⟩ | ⟨rfl, rfl⟩ | ⟨rfl, rfl⟩ <;>
   · rw [ax_call]
@@ -106,54 +147,54 @@ theorem mc_table_mem (s : Stmt) (h : s.isMC = true) : (s.first, s.fn) ∈ mcTabl
   cases s <;> simp [Stmt.isMC] at h <;> simp [Stmt.first, Stmt.fn, mcTable]
 
 /-- from the contract of the selected function to the contract of `statement` -/
-theorem c_stmt_of_fn (s : Stmt) (X : List TokenKind) (fl' : Bool)
-    (hfn : ∀ (n : Nat) (fl : Bool) (d : Nat) (cps : List Nat), 64 * s.render.length + 1024 ≤ n →
-      ax n (call s.fn) ⟨s.render ++ X, fl, d, loc, cps, true⟩ = some ⟨X, fl', d, loc, cps, true⟩) :
-    ∀ (n : Nat) (fl : Bool) (d : Nat) (cps : List Nat), 64 * s.render.length + 1088 ≤ n →
-      ax n (call .statement) ⟨s.render ++ X, fl, d, loc, cps, true⟩ = some ⟨X, fl', d, loc, cps, true⟩ := by
-  intro n fl d cps hn
+theorem c_stmt_of_fn (s : Stmt) (X : List TokenKind) (fl' : Bool) (k : SyntaxKind)
+    (hfn : ∀ (n : Nat) (fl : Bool) (d : Nat) (cps : CpStack) (cur : List SyntaxKind) (ps : List (SyntaxKind × List SyntaxKind)), 64 * s.render.length + 1024 ≤ n →
+      ax n (call s.fn) ⟨s.render ++ X, fl, d, loc, cps, true, cur, ps⟩ = some ⟨X, fl', d, loc, cps, true, k :: cur, ps⟩) :
+    ∀ (n : Nat) (fl : Bool) (d : Nat) (cps : CpStack) (cur : List SyntaxKind) (ps : List (SyntaxKind × List SyntaxKind)), 64 * s.render.length + 1088 ≤ n →
+      ax n (call .statement) ⟨s.render ++ X, fl, d, loc, cps, true, cur, ps⟩ = some ⟨X, fl', d, loc, cps, true, k :: cur, ps⟩ := by
+  intro n fl d cps cur ps hn
   obtain ⟨m, rfl⟩ : ∃ m, n = m + 16 := ⟨n - 16, by omega⟩
-  have h := hfn m fl d cps (by omega)
+  have h := hfn m fl d cps cur ps (by omega)
   obtain ⟨tl, e⟩ := stmt_render_cons s X
   rw [e] at h ⊢
-  exact dispatch_stmt fl d loc cps (stmt_table_mem s) tl _ m h
+  exact dispatch_stmt fl d loc cps cur ps (stmt_table_mem s) tl _ m h
 
-theorem c_mcstmt_of_fn (s : Stmt) (hmc : s.isMC = true) (X : List TokenKind) (fl' : Bool)
-    (hfn : ∀ (n : Nat) (fl : Bool) (d : Nat) (cps : List Nat), 64 * s.render.length + 1024 ≤ n →
-      ax n (call s.fn) ⟨s.render ++ X, fl, d, loc, cps, true⟩ = some ⟨X, fl', d, loc, cps, true⟩) :
-    ∀ (n : Nat) (fl : Bool) (d : Nat) (cps : List Nat), 64 * s.render.length + 1088 ≤ n →
-      ax n (call .multi_class_statement) ⟨s.render ++ X, fl, d, loc, cps, true⟩ = some ⟨X, fl', d, loc, cps, true⟩ := by
-  intro n fl d cps hn
+theorem c_mcstmt_of_fn (s : Stmt) (hmc : s.isMC = true) (X : List TokenKind) (fl' : Bool) (k : SyntaxKind)
+    (hfn : ∀ (n : Nat) (fl : Bool) (d : Nat) (cps : CpStack) (cur : List SyntaxKind) (ps : List (SyntaxKind × List SyntaxKind)), 64 * s.render.length + 1024 ≤ n →
+      ax n (call s.fn) ⟨s.render ++ X, fl, d, loc, cps, true, cur, ps⟩ = some ⟨X, fl', d, loc, cps, true, k :: cur, ps⟩) :
+    ∀ (n : Nat) (fl : Bool) (d : Nat) (cps : CpStack) (cur : List SyntaxKind) (ps : List (SyntaxKind × List SyntaxKind)), 64 * s.render.length + 1088 ≤ n →
+      ax n (call .multi_class_statement) ⟨s.render ++ X, fl, d, loc, cps, true, cur, ps⟩ = some ⟨X, fl', d, loc, cps, true, k :: cur, ps⟩ := by
+  intro n fl d cps cur ps hn
   obtain ⟨m, rfl⟩ : ∃ m, n = m + 16 := ⟨n - 16, by omega⟩
-  have h := hfn m fl d cps (by omega)
+  have h := hfn m fl d cps cur ps (by omega)
   obtain ⟨tl, e⟩ := stmt_render_cons s X
   rw [e] at h ⊢
-  exact dispatch_mcstmt fl d loc cps (mc_table_mem s hmc) tl _ m h
+  exact dispatch_mcstmt fl d loc cps cur ps (mc_table_mem s hmc) tl _ m h
 
 /-! ### simple statements -/
 
 theorem c_include (X : List TokenKind) (hS : (X.headD .Eof == .StrVal) = false) (n : Nat) (hn : 192 ≤ n) :
-    ax n (call .include) ⟨TokenKind.Include :: TokenKind.StrVal :: X, fl, d, loc, cps, true⟩ =
-      some ⟨X, true, d, loc, cps, true⟩ := by
+    ax n (call .include) ⟨TokenKind.Include :: TokenKind.StrVal :: X, fl, d, loc, cps, true, cur, ps⟩ =
+      some ⟨X, true, d, loc, cps, true, SyntaxKind.Include :: cur, ps⟩ := by
   obtain ⟨m, rfl⟩ : ∃ m, n = m + 40 := ⟨n - 40, by omega⟩
   ax_eval [ax_call, ax_loop, hS]
 
 theorem c_defvar (v : Val) (X : List TokenKind) (n : Nat) (hn : 64 * v.render.length + 640 ≤ n) :
-    ax n (call .defvar) ⟨TokenKind.Defvar :: TokenKind.Id :: TokenKind.Equal :: (v.render ++ TokenKind.Semi :: X), fl, d, loc, cps, true⟩ =
-      some ⟨X, true, d, loc, cps, true⟩ := by
+    ax n (call .defvar) ⟨TokenKind.Defvar :: TokenKind.Id :: TokenKind.Equal :: (v.render ++ TokenKind.Semi :: X), fl, d, loc, cps, true, cur, ps⟩ =
+      some ⟨X, true, d, loc, cps, true, SyntaxKind.Defvar :: cur, ps⟩ := by
   obtain ⟨m, rfl⟩ : ∃ m, n = m + 40 := ⟨n - 40, by omega⟩
   ax_eval [ax_call (f := .defvar), c_identifier, c_value]
 
 theorem c_dump (v : Val) (X : List TokenKind) (n : Nat) (hn : 64 * v.render.length + 640 ≤ n) :
-    ax n (call .dump) ⟨TokenKind.Dump :: (v.render ++ TokenKind.Semi :: X), fl, d, loc, cps, true⟩ =
-      some ⟨X, true, d, loc, cps, true⟩ := by
+    ax n (call .dump) ⟨TokenKind.Dump :: (v.render ++ TokenKind.Semi :: X), fl, d, loc, cps, true, cur, ps⟩ =
+      some ⟨X, true, d, loc, cps, true, SyntaxKind.Dump :: cur, ps⟩ := by
   obtain ⟨m, rfl⟩ : ∃ m, n = m + 40 := ⟨n - 40, by omega⟩
   ax_eval [ax_call (f := .dump), c_value]
 
 theorem c_assert (c msg : Val) (X : List TokenKind) (n : Nat)
     (hn : 64 * (c.render.length + msg.render.length) + 640 ≤ n) :
-    ax n (call .assert_) ⟨TokenKind.Assert :: (c.render ++ TokenKind.Comma :: (msg.render ++ TokenKind.Semi :: X)), fl, d, loc, cps, true⟩ =
-      some ⟨X, true, d, loc, cps, true⟩ := by
+    ax n (call .assert_) ⟨TokenKind.Assert :: (c.render ++ TokenKind.Comma :: (msg.render ++ TokenKind.Semi :: X)), fl, d, loc, cps, true, cur, ps⟩ =
+      some ⟨X, true, d, loc, cps, true, SyntaxKind.Assert :: cur, ps⟩ := by
   obtain ⟨m, rfl⟩ : ∃ m, n = m + 40 := ⟨n - 40, by omega⟩
   ax_eval [ax_call (f := .assert_), c_value]
 
@@ -161,15 +202,21 @@ theorem c_assert (c msg : Val) (X : List TokenKind) (n : Nat)
 
 theorem c_class (ta : List TArg) (p : List ClassRef) (b : Body) (X : List TokenKind) (n : Nat)
     (hn : 64 * ((targsRender ta).length + (recordBodyRender p b).length) + 960 ≤ n) :
-    ax n (call .class_) ⟨TokenKind.Class :: TokenKind.Id :: (targsRender ta ++ (recordBodyRender p b ++ X)), fl, d, loc, cps, true⟩ =
-      some ⟨X, b.isSemi, d, loc, cps, true⟩ := by
+    ax n (call .class_) ⟨TokenKind.Class :: TokenKind.Id :: (targsRender ta ++ (recordBodyRender p b ++ X)), fl, d, loc, cps, true, cur, ps⟩ =
+      some ⟨X, b.isSemi, d, loc, cps, true, SyntaxKind.Class :: cur, ps⟩ := by
   obtain ⟨m, rfl⟩ : ∃ m, n = m + 40 := ⟨n - 40, by omega⟩
   have hL : ((recordBodyRender p b ++ X).headD .Eof == .Less) = false :=
     ne_of_mem (recordBody_head p b X) (by decide)
+  have hg : goodNode .Class (SyntaxKind.RecordBody :: optPush .TemplateArgList [.Identifier] ta.isEmpty).reverse = true := by
+    cases ta.isEmpty <;> rfl
   ax_eval [ax_call (f := .class_), c_identifier, c_opt_targs, c_record_body]
 
 theorem nvalFollowOk_of_mem {k : TokenKind} {S : List TokenKind} (h : S.contains k = true)
     (hS : S.all nvalFollowOk = true) : nvalFollowOk k = true := prop_of_mem nvalFollowOk h hS
+
+def namePush (cur : List SyntaxKind) : Option NameVal → List SyntaxKind
+  | none => cur
+  | some _ => .Value :: cur
 
 def nameFlag (fl : Bool) : Option NameVal → Bool
   | none => fl
@@ -178,11 +225,11 @@ def nameFlag (fl : Bool) : Option NameVal → Bool
 theorem c_object_name (o : Option NameVal) (Z : List TokenKind)
     (hZ : [TokenKind.Colon, .Semi, .LBrace].contains (Z.headD .Eof) = true)
     (n : Nat) (hn : 64 * (optName o).length + 512 ≤ n) :
-    ax n (call .object_name) ⟨optName o ++ Z, fl, d, loc, cps, true⟩ = some ⟨Z, nameFlag fl o, d, loc, cps, true⟩ := by
+    ax n (call .object_name) ⟨optName o ++ Z, fl, d, loc, cps, true, cur, ps⟩ = some ⟨Z, nameFlag fl o, d, loc, cps, true, namePush cur o, ps⟩ := by
   cases o with
   | none =>
     obtain ⟨m, rfl⟩ : ∃ m, n = m + 20 := ⟨n - 20, by omega⟩
-    ax_eval [ax_call, optName, nameFlag]
+    ax_eval [ax_call, optName, nameFlag, namePush]
   | some v =>
     simp only [optName] at hn
     obtain ⟨m, rfl⟩ : ∃ m, n = m + 20 := ⟨n - 20, by omega⟩
@@ -191,14 +238,15 @@ theorem c_object_name (o : Option NameVal) (Z : List TokenKind)
       fun Y => (nameval_head v Y).2
     have h2 : ∀ Y, Tables.valueStart.contains ((v.render ++ Y).headD .Eof) = true :=
       fun Y => (nameval_head v Y).1
-    ax_eval [ax_call (f := .object_name), ax_call (f := .opt_name_value), optName, nameFlag, c_name_value]
+    ax_eval [ax_call (f := .object_name), ax_call (f := .opt_name_value), optName, nameFlag, namePush, c_name_value]
 
 theorem c_def (o : Option NameVal) (p : List ClassRef) (b : Body) (X : List TokenKind) (n : Nat)
     (hn : 64 * ((optName o).length + (recordBodyRender p b).length) + 960 ≤ n) :
-    ax n (call .def_) ⟨TokenKind.Def :: (optName o ++ (recordBodyRender p b ++ X)), fl, d, loc, cps, true⟩ =
-      some ⟨X, b.isSemi, d, loc, cps, true⟩ := by
+    ax n (call .def_) ⟨TokenKind.Def :: (optName o ++ (recordBodyRender p b ++ X)), fl, d, loc, cps, true, cur, ps⟩ =
+      some ⟨X, b.isSemi, d, loc, cps, true, SyntaxKind.Def :: cur, ps⟩ := by
   obtain ⟨m, rfl⟩ : ∃ m, n = m + 40 := ⟨n - 40, by omega⟩
   have hZ := recordBody_head p b X
+  have hg : goodNode .Def (SyntaxKind.RecordBody :: namePush [] o).reverse = true := by cases o <;> rfl
   ax_eval [ax_call (f := .def_), c_object_name, c_record_body]
 
 theorem parents_head (p : List ClassRef) (k : TokenKind) (Z : List TokenKind) :
@@ -209,11 +257,12 @@ theorem parents_head (p : List ClassRef) (k : TokenKind) (Z : List TokenKind) :
 
 theorem c_defm (o : Option NameVal) (p : List ClassRef) (X : List TokenKind) (n : Nat)
     (hn : 64 * ((optName o).length + (parentsRender p).length) + 960 ≤ n) :
-    ax n (call .defm) ⟨TokenKind.Defm :: (optName o ++ (parentsRender p ++ TokenKind.Semi :: X)), fl, d, loc, cps, true⟩ =
-      some ⟨X, false, d, loc, cps, true⟩ := by
+    ax n (call .defm) ⟨TokenKind.Defm :: (optName o ++ (parentsRender p ++ TokenKind.Semi :: X)), fl, d, loc, cps, true, cur, ps⟩ =
+      some ⟨X, false, d, loc, cps, true, SyntaxKind.Defm :: cur, ps⟩ := by
   obtain ⟨m, rfl⟩ : ∃ m, n = m + 40 := ⟨n - 40, by omega⟩
   have hZ : [TokenKind.Colon, .Semi, .LBrace].contains ((parentsRender p ++ TokenKind.Semi :: X).headD .Eof) = true :=
     in_of_mem (parents_head p .Semi X) (by decide)
+  have hg : goodNode .Defm (SyntaxKind.ParentClassList :: namePush [] o).reverse = true := by cases o <;> rfl
   ax_eval [ax_call (f := .defm), c_object_name, c_parent_class_list]
 
 /-! ### `let` lists, `foreach` iterators -/
@@ -221,7 +270,7 @@ theorem c_defm (o : Option NameVal) (p : List ClassRef) (X : List TokenKind) (n 
 theorem c_let_item (i : LetItem) (X : List TokenKind)
     (hX : [TokenKind.Comma, .In].contains (X.headD .Eof) = true)
     (n : Nat) (hn : 64 * i.render.length + 512 ≤ n) :
-    ax n (call .let_item) ⟨i.render ++ X, fl, d, loc, cps, true⟩ = some ⟨X, true, d, loc, cps, true⟩ := by
+    ax n (call .let_item) ⟨i.render ++ X, fl, d, loc, cps, true, cur, ps⟩ = some ⟨X, true, d, loc, cps, true, SyntaxKind.LetItem :: cur, ps⟩ := by
   obtain ⟨r, v⟩ := i
   have hv := valFollowOk_of_mem hX (by decide)
   cases r with
@@ -235,43 +284,46 @@ theorem c_let_item (i : LetItem) (X : List TokenKind)
     ax_eval [ax_call (f := .let_item), c_identifier, c_value, c_range_list]
 
 theorem c_let_loop (tl : List LetItem) (X : List TokenKind) :
-    ∀ (i : LetItem) (n : Nat) (fl : Bool), 64 * (i.render.length + (letTail tl).length) + 576 ≤ n →
+    ∀ (i : LetItem) (n : Nat) (fl : Bool) (cur : List SyntaxKind), 64 * (i.render.length + (letTail tl).length) + 576 ≤ n →
       ax n (loop (ifAt [.Eof] (retB false) (seq (call .let_item) (eatIf .Comma))) nop)
-        ⟨i.render ++ (letTail tl ++ TokenKind.In :: X), fl, d, loc, cps, true⟩ =
-        some ⟨TokenKind.In :: X, false, d, loc, cps, true⟩ := by
+        ⟨i.render ++ (letTail tl ++ TokenKind.In :: X), fl, d, loc, cps, true, cur, ps⟩ =
+        some ⟨TokenKind.In :: X, false, d, loc, cps, true, pushAll (List.replicate (tl.length + 1) SyntaxKind.LetItem) cur, ps⟩ := by
   induction tl with
   | nil =>
-    intro i n fl hn
+    intro i n fl cur hn
     simp only [letTail, List.length_nil] at hn
     obtain ⟨m, rfl⟩ : ∃ m, n = m + 20 := ⟨n - 20, by omega⟩
     have hh : ∀ Z, [TokenKind.Eof].contains ((i.render ++ Z).headD .Eof) = false := fun Z => rfl
     rw [ax_loop]
-    ax_eval [letTail, c_let_item]
+    ax_eval [letTail, c_let_item, List.length_nil]
   | cons j js ih =>
-    intro i n fl hn
+    intro i n fl cur hn
     simp only [letTail, List.length_cons, List.length_append] at hn
     obtain ⟨m, rfl⟩ : ∃ m, n = m + 20 := ⟨n - 20, by omega⟩
     have hh : ∀ Z, [TokenKind.Eof].contains ((i.render ++ Z).headD .Eof) = false := fun Z => rfl
     rw [ax_loop]
-    ax_eval [letTail, c_let_item, ih]
+    ax_eval [letTail, c_let_item, ih, List.length_cons]
 
 theorem c_let_list (l : LetList) (X : List TokenKind) (n : Nat) (hn : 64 * l.render.length + 640 ≤ n) :
-    ax n (call .let_list) ⟨l.render ++ TokenKind.In :: X, fl, d, loc, cps, true⟩ =
-      some ⟨TokenKind.In :: X, false, d, loc, cps, true⟩ := by
+    ax n (call .let_list) ⟨l.render ++ TokenKind.In :: X, fl, d, loc, cps, true, cur, ps⟩ =
+      some ⟨TokenKind.In :: X, false, d, loc, cps, true, SyntaxKind.LetList :: cur, ps⟩ := by
   obtain ⟨i, tl⟩ := l
   simp only [LetList.render, List.length_append] at hn ⊢
   obtain ⟨m, rfl⟩ : ∃ m, n = m + 20 := ⟨n - 20, by omega⟩
-  ax_eval [ax_call (f := .let_list), c_let_loop _ _ _ tl X]
+  have hg : goodNode .LetList (pushAll (List.replicate tl.length .LetItem) [.LetItem]).reverse = true :=
+    good_all_push .LetList ⟨"items", .all, [.LetItem]⟩ rfl rfl (List.replicate (tl.length + 1) .LetItem)
+      (by intro x hx; rw [List.eq_of_mem_replicate hx]; rfl)
+  ax_eval [ax_call (f := .let_list), c_let_loop _ _ _ _ tl X]
 
 theorem c_foreach_init (i : ForeachInit) (hwf : i.wf = true) (X : List TokenKind)
     (n : Nat) (hn : 64 * i.render.length + 512 ≤ n) :
-    ax n (call .foreach_iterator_init) ⟨i.render ++ TokenKind.In :: X, fl, d, loc, cps, true⟩ =
-      some ⟨TokenKind.In :: X, true, d, loc, cps, true⟩ := by
+    ax n (call .foreach_iterator_init) ⟨i.render ++ TokenKind.In :: X, fl, d, loc, cps, true, cur, ps⟩ =
+      some ⟨TokenKind.In :: X, true, d, loc, cps, true, i.nk :: cur, ps⟩ := by
   cases i with
   | braces r =>
     simp only [ForeachInit.render, List.length_cons, List.length_append, List.length_nil] at hn ⊢
     obtain ⟨m, rfl⟩ : ∃ m, n = m + 40 := ⟨n - 40, by omega⟩
-    ax_eval [ax_call (f := .foreach_iterator_init), c_range_list]
+    ax_eval [ax_call (f := .foreach_iterator_init), c_range_list, ForeachInit.nk]
   | piece p =>
     simp only [ForeachInit.render] at hn ⊢
     obtain ⟨m, rfl⟩ : ∃ m, n = m + 40 := ⟨n - 40, by omega⟩
@@ -281,7 +333,7 @@ theorem c_foreach_init (i : ForeachInit) (hwf : i.wf = true) (X : List TokenKind
     have h2 : ∀ Z, [TokenKind.IntVal].contains ((p.render ++ Z).headD .Eof) = true := by
       intro Z
       cases p <;> simp only [RangePiece.firstBin] at hb <;> subst hb <;> rfl
-    ax_eval [ax_call (f := .foreach_iterator_init), c_range_piece]
+    ax_eval [ax_call (f := .foreach_iterator_init), c_range_piece, ForeachInit.nk]
   | value v =>
     simp only [ForeachInit.render] at hn ⊢
     obtain ⟨m, rfl⟩ : ∃ m, n = m + 40 := ⟨n - 40, by omega⟩
@@ -291,13 +343,14 @@ theorem c_foreach_init (i : ForeachInit) (hwf : i.wf = true) (X : List TokenKind
       intro Z; rw [val_head_eq]; simp only [List.contains_cons, List.contains_nil, hl.2, Bool.or_false]
     have h2 : ∀ Z, [TokenKind.IntVal].contains ((v.render ++ Z).headD .Eof) = false := by
       intro Z; rw [val_head_eq]; simp only [List.contains_cons, List.contains_nil, hl.1, Bool.or_false]
-    ax_eval [ax_call (f := .foreach_iterator_init), c_value]
+    ax_eval [ax_call (f := .foreach_iterator_init), c_value, ForeachInit.nk]
 
 theorem c_foreach_iterator (i : ForeachInit) (hwf : i.wf = true) (X : List TokenKind)
     (n : Nat) (hn : 64 * i.render.length + 640 ≤ n) :
-    ax n (call .foreach_iterator) ⟨TokenKind.Id :: TokenKind.Equal :: (i.render ++ TokenKind.In :: X), fl, d, loc, cps, true⟩ =
-      some ⟨TokenKind.In :: X, true, d, loc, cps, true⟩ := by
+    ax n (call .foreach_iterator) ⟨TokenKind.Id :: TokenKind.Equal :: (i.render ++ TokenKind.In :: X), fl, d, loc, cps, true, cur, ps⟩ =
+      some ⟨TokenKind.In :: X, true, d, loc, cps, true, SyntaxKind.ForeachIterator :: cur, ps⟩ := by
   obtain ⟨m, rfl⟩ : ∃ m, n = m + 40 := ⟨n - 40, by omega⟩
+  have hg : goodNode .ForeachIterator (List.reverse [i.nk, .Identifier]) = true := by cases i <;> rfl
   ax_eval [ax_call (f := .foreach_iterator), c_identifier, c_foreach_init]
 
 end
@@ -334,46 +387,48 @@ mutual
 /-- the function selected by a statement's first token, on that statement -/
 theorem c_fn (loc : List Bool) : (s : Stmt) → s.wf = true → (X : List TokenKind) →
     (X.headD .Eof == .StrVal) = false → (s.openIf = true → (X.headD .Eof == .ElseKw) = false) →
-    ∀ (n : Nat) (fl : Bool) (d : Nat) (cps : List Nat), 64 * s.render.length + 1024 ≤ n →
-      ax n (call s.fn) ⟨s.render ++ X, fl, d, loc, cps, true⟩ = some ⟨X, s.flagOut, d, loc, cps, true⟩
-  | .include, _, X, hS, _, n, fl, d, cps, hn => by
+    ∀ (n : Nat) (fl : Bool) (d : Nat) (cps : CpStack) (cur : List SyntaxKind) (ps : List (SyntaxKind × List SyntaxKind)), 64 * s.render.length + 1024 ≤ n →
+      ax n (call s.fn) ⟨s.render ++ X, fl, d, loc, cps, true, cur, ps⟩ = some ⟨X, s.flagOut, d, loc, cps, true, s.nk :: cur, ps⟩
+  | .include, _, X, hS, _, n, fl, d, cps, cur, ps, hn => by
     simp only [Stmt.render, List.length_cons, List.length_nil] at hn
-    ax_eval [Stmt.fn, Stmt.render, Stmt.flagOut, c_include]
-  | .cls ta p b, _, X, hS, _, n, fl, d, cps, hn => by
+    ax_eval [Stmt.fn, Stmt.nk, Stmt.render, Stmt.flagOut, c_include]
+  | .cls ta p b, _, X, hS, _, n, fl, d, cps, cur, ps, hn => by
     simp only [Stmt.render, List.length_cons, List.length_append] at hn
-    ax_eval [Stmt.fn, Stmt.render, Stmt.flagOut, c_class]
-  | .def_ o p b, _, X, hS, _, n, fl, d, cps, hn => by
+    ax_eval [Stmt.fn, Stmt.nk, Stmt.render, Stmt.flagOut, c_class]
+  | .def_ o p b, _, X, hS, _, n, fl, d, cps, cur, ps, hn => by
     simp only [Stmt.render, List.length_cons, List.length_append] at hn
-    ax_eval [Stmt.fn, Stmt.render, Stmt.flagOut, c_def]
-  | .defvar v, _, X, hS, _, n, fl, d, cps, hn => by
+    ax_eval [Stmt.fn, Stmt.nk, Stmt.render, Stmt.flagOut, c_def]
+  | .defvar v, _, X, hS, _, n, fl, d, cps, cur, ps, hn => by
     simp only [Stmt.render, List.length_cons, List.length_append, List.length_nil] at hn
-    ax_eval [Stmt.fn, Stmt.render, Stmt.flagOut, c_defvar]
-  | .dump v, _, X, hS, _, n, fl, d, cps, hn => by
+    ax_eval [Stmt.fn, Stmt.nk, Stmt.render, Stmt.flagOut, c_defvar]
+  | .dump v, _, X, hS, _, n, fl, d, cps, cur, ps, hn => by
     simp only [Stmt.render, List.length_cons, List.length_append, List.length_nil] at hn
-    ax_eval [Stmt.fn, Stmt.render, Stmt.flagOut, c_dump]
-  | .assert_ c msg, _, X, hS, _, n, fl, d, cps, hn => by
+    ax_eval [Stmt.fn, Stmt.nk, Stmt.render, Stmt.flagOut, c_dump]
+  | .assert_ c msg, _, X, hS, _, n, fl, d, cps, cur, ps, hn => by
     simp only [Stmt.render, List.length_cons, List.length_append, List.length_nil] at hn
-    ax_eval [Stmt.fn, Stmt.render, Stmt.flagOut, c_assert]
-  | .defm o p, _, X, hS, _, n, fl, d, cps, hn => by
+    ax_eval [Stmt.fn, Stmt.nk, Stmt.render, Stmt.flagOut, c_assert]
+  | .defm o p, _, X, hS, _, n, fl, d, cps, cur, ps, hn => by
     simp only [Stmt.render, List.length_cons, List.length_append, List.length_nil] at hn
-    ax_eval [Stmt.fn, Stmt.render, Stmt.flagOut, c_defm]
-  | .defset t body, hwf, X, hS, _, n, fl, d, cps, hn => by
+    ax_eval [Stmt.fn, Stmt.nk, Stmt.render, Stmt.flagOut, c_defm]
+  | .defset t body, hwf, X, hS, _, n, fl, d, cps, cur, ps, hn => by
     obtain ⟨t, ht⟩ := t
     simp only [Stmt.render, DTy.render, List.length_cons, List.length_append, List.length_nil] at hn
     obtain ⟨m, rfl⟩ : ∃ m, n = m + 60 := ⟨n - 60, by omega⟩
     have hwf' : body.wf = true := by simpa [Stmt.wf] using hwf
     have ih := c_stmts_loop loc body hwf' X
-    ax_eval [Stmt.fn, ax_call (f := .defset), ax_call (f := .statement_list_block), Stmt.render,
+    have hgs := good_stmts body
+    have hg2 : goodNode .Defset (List.reverse [.StatementList, .Identifier, t.nk]) = true := by cases t <;> rfl
+    ax_eval [Stmt.fn, Stmt.nk, ax_call (f := .defset), ax_call (f := .statement_list_block), Stmt.render,
       DTy.render, Stmt.flagOut, c_type, c_identifier, ih]
-  | .ifThen c thn, hwf, X, hS, hE, n, fl, d, cps, hn => by
+  | .ifThen c thn, hwf, X, hS, hE, n, fl, d, cps, cur, ps, hn => by
     simp only [Stmt.render, List.length_cons, List.length_append] at hn
     obtain ⟨m, rfl⟩ : ∃ m, n = m + 60 := ⟨n - 60, by omega⟩
     have hwf' : thn.wf = true := by simpa [Stmt.wf] using hwf
     have hE' : (X.headD .Eof == .ElseKw) = false := hE rfl
     have hpos := val_length_pos c
     have ih := c_block loc thn hwf' X hS (fun _ => hE')
-    ax_eval [Stmt.fn, ax_call (f := .if_), Stmt.render, Stmt.flagOut, c_value, ih]
-  | .ifElse c thn els, hwf, X, hS, hE, n, fl, d, cps, hn => by
+    ax_eval [Stmt.fn, Stmt.nk, ax_call (f := .if_), Stmt.render, Stmt.flagOut, c_value, ih]
+  | .ifElse c thn els, hwf, X, hS, hE, n, fl, d, cps, cur, ps, hn => by
     simp only [Stmt.render, List.length_cons, List.length_append] at hn
     obtain ⟨m, rfl⟩ : ∃ m, n = m + 60 := ⟨n - 60, by omega⟩
     have hwf' : thn.wf = true ∧ thn.openIf = false ∧ els.wf = true := by
@@ -382,8 +437,8 @@ theorem c_fn (loc : List Bool) : (s : Stmt) → s.wf = true → (X : List TokenK
       (fun h => by rw [hwf'.2.1] at h; cases h)
     have ih2 := c_block loc els hwf'.2.2 X hS (fun h => hE (by simpa [Stmt.openIf] using h))
     have hpos := val_length_pos c
-    ax_eval [Stmt.fn, ax_call (f := .if_), Stmt.render, Stmt.flagOut, c_value, ih1, ih2]
-  | .let_ is body, hwf, X, hS, hE, n, fl, d, cps, hn => by
+    ax_eval [Stmt.fn, Stmt.nk, ax_call (f := .if_), Stmt.render, Stmt.flagOut, c_value, ih1, ih2]
+  | .let_ is body, hwf, X, hS, hE, n, fl, d, cps, cur, ps, hn => by
     simp only [Stmt.render, List.length_cons, List.length_append] at hn
     obtain ⟨m, rfl⟩ : ∃ m, n = m + 60 := ⟨n - 60, by omega⟩
     have hwf' : body.wf = true := by simpa [Stmt.wf] using hwf
@@ -391,15 +446,15 @@ theorem c_fn (loc : List Bool) : (s : Stmt) → s.wf = true → (X : List TokenK
     have hpos : 1 ≤ is.render.length := by
       obtain ⟨i, tl⟩ := is
       simp [LetList.render, LetItem.render]
-    ax_eval [Stmt.fn, ax_call (f := .let_), Stmt.render, Stmt.flagOut, c_let_list, ih]
-  | .foreach i body, hwf, X, hS, hE, n, fl, d, cps, hn => by
+    ax_eval [Stmt.fn, Stmt.nk, ax_call (f := .let_), Stmt.render, Stmt.flagOut, c_let_list, ih]
+  | .foreach i body, hwf, X, hS, hE, n, fl, d, cps, cur, ps, hn => by
     simp only [Stmt.render, List.length_cons, List.length_append] at hn
     obtain ⟨m, rfl⟩ : ∃ m, n = m + 60 := ⟨n - 60, by omega⟩
     have hwf' : i.wf = true ∧ body.wf = true := by simpa [Stmt.wf] using hwf
     have hiw := hwf'.1
     have ih := c_block loc body hwf'.2 X hS (fun h => hE (by simpa [Stmt.openIf] using h))
-    ax_eval [Stmt.fn, ax_call (f := .foreach), Stmt.render, Stmt.flagOut, c_foreach_iterator, ih]
-  | .multiclass ta p body, hwf, X, hS, _, n, fl, d, cps, hn => by
+    ax_eval [Stmt.fn, Stmt.nk, ax_call (f := .foreach), Stmt.render, Stmt.flagOut, c_foreach_iterator, ih]
+  | .multiclass ta p body, hwf, X, hS, _, n, fl, d, cps, cur, ps, hn => by
     simp only [Stmt.render, List.length_cons, List.length_append, List.length_nil] at hn
     obtain ⟨m, rfl⟩ : ∃ m, n = m + 60 := ⟨n - 60, by omega⟩
     have hwf' : body.isNil = false ∧ body.allMC = true ∧ body.wf = true := by
@@ -407,41 +462,45 @@ theorem c_fn (loc : List Bool) : (s : Stmt) → s.wf = true → (X : List TokenK
     have ih := c_mcstmts loc body hwf'.1 hwf'.2.1 hwf'.2.2 X
     have hL : ∀ Z, ((parentsRender p ++ TokenKind.LBrace :: Z).headD .Eof == TokenKind.Less) = false :=
       fun Z => ne_of_mem (parents_head p .LBrace Z) (by decide)
-    ax_eval [Stmt.fn, ax_call (f := .multi_class), Stmt.render, Stmt.flagOut, c_identifier, c_opt_targs,
+    have hg : goodNode .MultiClass (SyntaxKind.StatementList :: SyntaxKind.ParentClassList ::
+        optPush .TemplateArgList [.Identifier] ta.isEmpty).reverse = true := by cases ta.isEmpty <;> rfl
+    ax_eval [Stmt.fn, Stmt.nk, ax_call (f := .multi_class), Stmt.render, Stmt.flagOut, c_identifier, c_opt_targs,
       c_parent_class_list, ih]
 
 /-- **`statement_list_single_or_block`** on a statement or a braced list -/
 theorem c_block (loc : List Bool) : (b : Block) → b.wf = true → (X : List TokenKind) →
     (X.headD .Eof == .StrVal) = false → (b.openIf = true → (X.headD .Eof == .ElseKw) = false) →
-    ∀ (n : Nat) (fl : Bool) (d : Nat) (cps : List Nat), 64 * b.render.length + 1152 ≤ n →
-      ax n (call .statement_list_single_or_block) ⟨b.render ++ X, fl, d, loc, cps, true⟩ =
-        some ⟨X, b.flagOut, d, loc, cps, true⟩
-  | .single s, hwf, X, hS, hE, n, fl, d, cps, hn => by
+    ∀ (n : Nat) (fl : Bool) (d : Nat) (cps : CpStack) (cur : List SyntaxKind) (ps : List (SyntaxKind × List SyntaxKind)), 64 * b.render.length + 1152 ≤ n →
+      ax n (call .statement_list_single_or_block) ⟨b.render ++ X, fl, d, loc, cps, true, cur, ps⟩ =
+        some ⟨X, b.flagOut, d, loc, cps, true, SyntaxKind.StatementList :: cur, ps⟩
+  | .single s, hwf, X, hS, hE, n, fl, d, cps, cur, ps, hn => by
     simp only [Block.render] at hn
     obtain ⟨m, rfl⟩ : ∃ m, n = m + 20 := ⟨n - 20, by omega⟩
     have hwf' : s.wf = true := by simpa [Block.wf] using hwf
-    have ih := c_stmt_of_fn loc s X _ (c_fn loc s hwf' X hS (fun h => hE (by simpa [Block.openIf] using h)))
+    have ih := c_stmt_of_fn loc s X _ _ (c_fn loc s hwf' X hS (fun h => hE (by simpa [Block.openIf] using h)))
     have hB : ∀ Z, ((s.render ++ Z).headD .Eof == TokenKind.LBrace) = false :=
       fun Z => ne_of_mem (stmt_head s Z) (by decide)
+    have hg : goodNode .StatementList (List.reverse [s.nk]) = true := by cases s <;> rfl
     ax_eval [ax_call (f := .statement_list_single_or_block), Block.render, Block.flagOut, ih]
-  | .braces ss, hwf, X, hS, hE, n, fl, d, cps, hn => by
+  | .braces ss, hwf, X, hS, hE, n, fl, d, cps, cur, ps, hn => by
     simp only [Block.render, List.length_cons, List.length_append, List.length_nil] at hn
     obtain ⟨m, rfl⟩ : ∃ m, n = m + 20 := ⟨n - 20, by omega⟩
     have hwf' : ss.wf = true := by simpa [Block.wf] using hwf
     have ih := c_stmts_loop loc ss hwf' X
+    have hgs := good_stmts ss
     ax_eval [ax_call (f := .statement_list_single_or_block), Block.render, Block.flagOut, ih]
 
 /-- the statement loop of a braced list -/
 theorem c_stmts_loop (loc : List Bool) : (ss : Stmts) → ss.wf = true → (X : List TokenKind) →
-    ∀ (n : Nat) (fl : Bool) (d : Nat) (cps : List Nat), 64 * ss.render.length + 1152 ≤ n →
+    ∀ (n : Nat) (fl : Bool) (d : Nat) (cps : CpStack) (cur : List SyntaxKind) (ps : List (SyntaxKind × List SyntaxKind)), 64 * ss.render.length + 1152 ≤ n →
       ax n (loop (ifAt [.Eof, .RBrace] (retB false) (retB true)) (call .statement))
-        ⟨ss.render ++ TokenKind.RBrace :: X, fl, d, loc, cps, true⟩ =
-        some ⟨TokenKind.RBrace :: X, false, d, loc, cps, true⟩
-  | .nil, _, X, n, fl, d, cps, hn => by
+        ⟨ss.render ++ TokenKind.RBrace :: X, fl, d, loc, cps, true, cur, ps⟩ =
+        some ⟨TokenKind.RBrace :: X, false, d, loc, cps, true, pushAll ss.kinds cur, ps⟩
+  | .nil, _, X, n, fl, d, cps, cur, ps, hn => by
     obtain ⟨m, rfl⟩ : ∃ m, n = m + 20 := ⟨n - 20, by omega⟩
     rw [ax_loop]
-    ax_eval [Stmts.render]
-  | .cons s ss, hwf, X, n, fl, d, cps, hn => by
+    ax_eval [Stmts.render, Stmts.kinds]
+  | .cons s ss, hwf, X, n, fl, d, cps, cur, ps, hn => by
     simp only [Stmts.render, List.length_append] at hn
     obtain ⟨m, rfl⟩ : ∃ m, n = m + 20 := ⟨n - 20, by omega⟩
     have hwf' : s.wf = true ∧ ss.wf = true := by simpa [Stmts.wf] using hwf
@@ -452,23 +511,23 @@ theorem c_stmts_loop (loc : List Bool) : (ss : Stmts) → ss.wf = true → (X : 
       ne_of_mem (stmts_head ss .RBrace X) (by decide)
     have hE : ((ss.render ++ TokenKind.RBrace :: X).headD .Eof == TokenKind.ElseKw) = false :=
       ne_of_mem (stmts_head ss .RBrace X) (by decide)
-    have ih1 := c_stmt_of_fn loc s (ss.render ++ TokenKind.RBrace :: X) _
+    have ih1 := c_stmt_of_fn loc s (ss.render ++ TokenKind.RBrace :: X) _ _
       (c_fn loc s hwf'.1 (ss.render ++ TokenKind.RBrace :: X) hS (fun _ => hE))
     have ih2 := c_stmts_loop loc ss hwf'.2 X
     rw [ax_loop]
-    ax_eval [Stmts.render, ih1, ih2]
+    ax_eval [Stmts.render, Stmts.kinds, ih1, ih2]
 
 /-- the statement loop of a `multiclass` body -/
 theorem c_mcstmts_loop (loc : List Bool) : (ss : Stmts) → ss.allMC = true → ss.wf = true → (X : List TokenKind) →
-    ∀ (n : Nat) (fl : Bool) (d : Nat) (cps : List Nat), 64 * ss.render.length + 1152 ≤ n →
+    ∀ (n : Nat) (fl : Bool) (d : Nat) (cps : CpStack) (cur : List SyntaxKind) (ps : List (SyntaxKind × List SyntaxKind)), 64 * ss.render.length + 1152 ≤ n →
       ax n (loop (ifAt [.Eof, .RBrace] (retB false) (retB true)) (call .multi_class_statement))
-        ⟨ss.render ++ TokenKind.RBrace :: X, fl, d, loc, cps, true⟩ =
-        some ⟨TokenKind.RBrace :: X, false, d, loc, cps, true⟩
-  | .nil, _, _, X, n, fl, d, cps, hn => by
+        ⟨ss.render ++ TokenKind.RBrace :: X, fl, d, loc, cps, true, cur, ps⟩ =
+        some ⟨TokenKind.RBrace :: X, false, d, loc, cps, true, pushAll ss.kinds cur, ps⟩
+  | .nil, _, _, X, n, fl, d, cps, cur, ps, hn => by
     obtain ⟨m, rfl⟩ : ∃ m, n = m + 20 := ⟨n - 20, by omega⟩
     rw [ax_loop]
-    ax_eval [Stmts.render]
-  | .cons s ss, hmc, hwf, X, n, fl, d, cps, hn => by
+    ax_eval [Stmts.render, Stmts.kinds]
+  | .cons s ss, hmc, hwf, X, n, fl, d, cps, cur, ps, hn => by
     simp only [Stmts.render, List.length_append] at hn
     obtain ⟨m, rfl⟩ : ∃ m, n = m + 20 := ⟨n - 20, by omega⟩
     have hwf' : s.wf = true ∧ ss.wf = true := by simpa [Stmts.wf] using hwf
@@ -480,20 +539,20 @@ theorem c_mcstmts_loop (loc : List Bool) : (ss : Stmts) → ss.allMC = true → 
       ne_of_mem (stmts_head ss .RBrace X) (by decide)
     have hE : ((ss.render ++ TokenKind.RBrace :: X).headD .Eof == TokenKind.ElseKw) = false :=
       ne_of_mem (stmts_head ss .RBrace X) (by decide)
-    have ih1 := c_mcstmt_of_fn loc s hmc'.1 (ss.render ++ TokenKind.RBrace :: X) _
+    have ih1 := c_mcstmt_of_fn loc s hmc'.1 (ss.render ++ TokenKind.RBrace :: X) _ _
       (c_fn loc s hwf'.1 (ss.render ++ TokenKind.RBrace :: X) hS (fun _ => hE))
     have ih2 := c_mcstmts_loop loc ss hmc'.2 hwf'.2 X
     rw [ax_loop]
-    ax_eval [Stmts.render, ih1, ih2]
+    ax_eval [Stmts.render, Stmts.kinds, ih1, ih2]
 
 /-- **`multi_class_statements`** on a non-empty list of multiclass statements (after the `{`) -/
 theorem c_mcstmts (loc : List Bool) : (ss : Stmts) → ss.isNil = false → ss.allMC = true → ss.wf = true →
     (X : List TokenKind) →
-    ∀ (n : Nat) (fl : Bool) (d : Nat) (cps : List Nat), 64 * ss.render.length + 1216 ≤ n →
-      ax n (call .multi_class_statements) ⟨ss.render ++ TokenKind.RBrace :: X, fl, d, loc, cps, true⟩ =
-        some ⟨X, false, d, loc, cps, true⟩
-  | .nil, hnil, _, _, _, _, _, _, _, _ => by simp [Stmts.isNil] at hnil
-  | .cons s ss, _, hmc, hwf, X, n, fl, d, cps, hn => by
+    ∀ (n : Nat) (fl : Bool) (d : Nat) (cps : CpStack) (cur : List SyntaxKind) (ps : List (SyntaxKind × List SyntaxKind)), 64 * ss.render.length + 1216 ≤ n →
+      ax n (call .multi_class_statements) ⟨ss.render ++ TokenKind.RBrace :: X, fl, d, loc, cps, true, cur, ps⟩ =
+        some ⟨X, false, d, loc, cps, true, SyntaxKind.StatementList :: cur, ps⟩
+  | .nil, hnil, _, _, _, _, _, _, _, _, _, _ => by simp [Stmts.isNil] at hnil
+  | .cons s ss, _, hmc, hwf, X, n, fl, d, cps, cur, ps, hn => by
     simp only [Stmts.render, List.length_append] at hn
     obtain ⟨m, rfl⟩ : ∃ m, n = m + 20 := ⟨n - 20, by omega⟩
     have hwf' : s.wf = true ∧ ss.wf = true := by simpa [Stmts.wf] using hwf
@@ -502,23 +561,24 @@ theorem c_mcstmts (loc : List Bool) : (ss : Stmts) → ss.isNil = false → ss.a
       ne_of_mem (stmts_head ss .RBrace X) (by decide)
     have hE : ((ss.render ++ TokenKind.RBrace :: X).headD .Eof == TokenKind.ElseKw) = false :=
       ne_of_mem (stmts_head ss .RBrace X) (by decide)
-    have ih1 := c_mcstmt_of_fn loc s hmc'.1 (ss.render ++ TokenKind.RBrace :: X) _
+    have ih1 := c_mcstmt_of_fn loc s hmc'.1 (ss.render ++ TokenKind.RBrace :: X) _ _
       (c_fn loc s hwf'.1 (ss.render ++ TokenKind.RBrace :: X) hS (fun _ => hE))
     have ih2 := c_mcstmts_loop loc ss hmc'.2 hwf'.2 X
+    have hg : goodNode .StatementList (pushAll ss.kinds [s.nk]).reverse = true := good_stmts (.cons s ss)
     ax_eval [ax_call (f := .multi_class_statements), Stmts.render, ih1, ih2]
 
 end
 
 /-- the top-level statement loop -/
 theorem c_stmts_top (loc : List Bool) : (ss : Stmts) → ss.wf = true →
-    ∀ (n : Nat) (fl : Bool) (d : Nat) (cps : List Nat), 64 * ss.render.length + 1152 ≤ n →
-      ax n (loop (ifAt [.Eof] (retB false) (retB true)) (call .statement)) ⟨ss.render, fl, d, loc, cps, true⟩ =
-        some ⟨[], false, d, loc, cps, true⟩
-  | .nil, _, n, fl, d, cps, hn => by
+    ∀ (n : Nat) (fl : Bool) (d : Nat) (cps : CpStack) (cur : List SyntaxKind) (ps : List (SyntaxKind × List SyntaxKind)), 64 * ss.render.length + 1152 ≤ n →
+      ax n (loop (ifAt [.Eof] (retB false) (retB true)) (call .statement)) ⟨ss.render, fl, d, loc, cps, true, cur, ps⟩ =
+        some ⟨[], false, d, loc, cps, true, pushAll ss.kinds cur, ps⟩
+  | .nil, _, n, fl, d, cps, cur, ps, hn => by
     obtain ⟨m, rfl⟩ : ∃ m, n = m + 20 := ⟨n - 20, by omega⟩
     rw [ax_loop]
-    ax_eval [Stmts.render]
-  | .cons s ss, hwf, n, fl, d, cps, hn => by
+    ax_eval [Stmts.render, Stmts.kinds]
+  | .cons s ss, hwf, n, fl, d, cps, cur, ps, hn => by
     simp only [Stmts.render, List.length_append] at hn
     obtain ⟨m, rfl⟩ : ∃ m, n = m + 20 := ⟨n - 20, by omega⟩
     have hwf' : s.wf = true ∧ ss.wf = true := by simpa [Stmts.wf] using hwf
@@ -529,18 +589,19 @@ theorem c_stmts_top (loc : List Bool) : (ss : Stmts) → ss.wf = true →
       ne_of_mem (stmts_head_top ss) (by decide)
     have hE : (ss.render.headD .Eof == TokenKind.ElseKw) = false :=
       ne_of_mem (stmts_head_top ss) (by decide)
-    have ih1 := c_stmt_of_fn loc s ss.render _ (c_fn loc s hwf'.1 ss.render hS (fun _ => hE))
+    have ih1 := c_stmt_of_fn loc s ss.render _ _ (c_fn loc s hwf'.1 ss.render hS (fun _ => hE))
     have ih2 := c_stmts_top loc ss hwf'.2
     rw [ax_loop]
-    ax_eval [Stmts.render, ih1, ih2]
+    ax_eval [Stmts.render, Stmts.kinds, ih1, ih2]
 
 /-- **`statement_list_top`** on a fragment program (from a state that may still be at trivia) -/
-theorem c_statement_list_top (p : Program) (fl : Bool) (d : Nat) (loc : List Bool) (cps : List Nat) (nm : Bool) (n : Nat)
+theorem c_statement_list_top (p : Program) (fl : Bool) (d : Nat) (loc : List Bool) (cps : CpStack) (cur : List SyntaxKind) (ps : List (SyntaxKind × List SyntaxKind)) (nm : Bool) (n : Nat)
     (hn : 64 * p.render.length + 1216 ≤ n) :
-    ax n (call .statement_list_top) ⟨p.render, fl, d, loc, cps, nm⟩ = some ⟨[], false, d, loc, cps, true⟩ := by
+    ax n (call .statement_list_top) ⟨p.render, fl, d, loc, cps, nm, cur, ps⟩ = some ⟨[], false, d, loc, cps, true, SyntaxKind.StatementList :: cur, ps⟩ := by
   obtain ⟨ss, hwf⟩ := p
   simp only [Program.render] at hn ⊢
   obtain ⟨m, rfl⟩ : ∃ m, n = m + 20 := ⟨n - 20, by omega⟩
+  have hgs := good_stmts ss
   ax_eval [ax_call, c_stmts_top loc ss hwf]
 
 end C04L
